@@ -111,6 +111,14 @@ func CreateSubscription(c gocoro.Coroutine[*t_aio.Submission, *t_aio.Completion,
 					Timeout:   r.CreateSubscription.Timeout,
 					CreatedOn: createdOn,
 				}
+			} else {
+				// nothing was registered: either the registration already exists or
+				// the promise was completed in the meantime, read the promise again
+				// so that a completed promise is never reported as pending
+				p, err = rereadPromise(c, r, p)
+				if err != nil {
+					return nil, err
+				}
 			}
 		}
 
